@@ -1,2 +1,3 @@
+import OsyrisProofs.C02
 import OsyrisProofs.C06
 import OsyrisProofs.C20
